@@ -337,9 +337,16 @@ func (r *Runner) write(i int, op Op, concurrent bool) error {
 	}
 	if err != nil {
 		r.logf("write p%d %s -> error %v", i, op, err)
-		// a refused write must not append
-		if n := s.OpLog().Len(); n != beforeLen && op.Kind != "putbatch" {
-			r.fail("refused-write-appended", fmt.Sprintf("p%d %s returned %v but the log grew from %d to %d", i, op, err, beforeLen, n))
+		// a refused write must not append: no new entry of this replica's own identity (the log may grow
+		// meanwhile because a merge of remote entries runs next to the call)
+		if op.Kind != "putbatch" {
+			for _, e := range s.OpLog().GetEntries().Slice() {
+				if before[e.GetHash().String()] || e.GetIdentity() == nil || e.GetIdentity().ID != s.Identity().ID {
+					continue
+				}
+				r.fail("refused-write-appended", fmt.Sprintf("p%d %s returned %v but an entry of this replica's own identity was appended (%s; log length %d -> %d)", i, op, err, short(e.GetHash().String()), beforeLen, s.OpLog().Len()))
+				break
+			}
 		}
 		return err
 	}
